@@ -1,10 +1,28 @@
-(* C10 — property theorems only.  Each is closed by `exact <lemma>` and pinned
-   by `Check`; `bin/check C10` re-runs Print Assumptions on every one. *)
-From Coq Require Import String ZArith List Bool.
-From Typify Require Import Gen.IntTable Algo.IntSelect Algo.IntSelectZ Spec.IntSpec Proofs.IntSelectProofs.
+(* C10 — property theorems only.  Each is closed by `exact <lemma>`;
+   `bin/check C10` re-runs Print Assumptions on every one.
+
+   Models: IntSelect.choose_integer   — convert_integer over Flocq binary64 (tied to the
+                                         real code on the boundary lattice, every run);
+           IntSelectZ.choose_integer_Z — the same control flow over Z.
+   `_Z` theorems hold for ALL integer bounds / defaults / formats (the only finite thing
+   is the regenerated table).  C10_refine proves the two models equal on safe_bounds
+   (integral doubles |z| <= 2^53 or -2^63, 2^63, 2^64) and integral defaults; the theorems
+   without suffix are the composition, on the Flocq model.
+
+   NOT proved (stated here only): int_fits_general — the first sentence for bounds that
+   are not safe (non-integral doubles, integral doubles beyond 2^53 other than the three
+   limit constants), where `x + 1.0` / `x - 1.0` round.  It is FALSE for the NonZero
+   sentence (C10_nonzero_refuted_F4); for the range sentence the lattice run of
+   py/props/c10.py explores such bounds and has found no violation other than F6. *)
+From Coq Require Import String ZArith List Bool Reals.
+From Flocq Require Import Core BinarySingleNaN Binary Bits.
+From Typify Require Import Gen.IntTable Algo.IntSelect Algo.IntSelectZ Spec.IntSpec
+  Proofs.IntSelectProofs Proofs.IntSelectRefine Proofs.IntSelectC10.
 Import ListNotations.
 Open Scope string_scope.
 Open Scope Z_scope.
+
+(* ---- tables ---- *)
 
 Theorem C10_string_format_table : string_formats = documented_string_formats.
 Proof. exact string_format_table. Qed.
@@ -21,3 +39,160 @@ Proof. exact number_never_narrower. Qed.
 Theorem C10_table_ranges_exact :
   length int_formats_Z = length int_formats_raw /\ forallb row_ok int_formats_Z = true.
 Proof. exact table_ranges_exact. Qed.
+
+(* ---- integer-level model: every bound, default and format ---- *)
+
+(* every admitted integer of the format's range fits the chosen type, except on
+   the class of finding C10-F6.  admittedZ ignores multipleOf, which can only
+   remove integers; add1/sub1 saturate outside +-2^53 exactly as the doubles do. *)
+Theorem C10_int_fits_Z :
+  forall fmt b d ty,
+    choose_integer_Z fmt b d = Chosen ty ->
+    ~ Known_F6 fmt b ->
+    forall n, admittedZ b n -> in_base fmt n -> in_ty ty n.
+Proof. exact int_fits_Z. Qed.
+
+Theorem C10_Known_F6_decidable :
+  forall fmt b, Known_F6 fmt b <-> known_F6b fmt b = true.
+Proof. exact Known_F6_dec. Qed.
+
+Theorem C10_int_fits_Z_refuted_F6 :
+  exists fmt b d ty n,
+    choose_integer_Z fmt b d = Chosen ty /\ known_F6b fmt b = true /\
+    admittedZb b n = true /\ in_base fmt n /\ ~ in_ty ty n.
+Proof. exact int_fits_Z_refuted_F6. Qed.
+
+(* the exclusion is exact: every member of the class fails *)
+Theorem C10_F6_class_fails :
+  forall fmt b,
+    Known_F6 fmt b -> zb_mult b = false ->
+    choose_integer_Z fmt b None = Chosen "i64" /\
+    admittedZ b (2^63) /\ in_base fmt (2^63) /\ ~ in_ty "i64" (2^63).
+Proof. exact F6_class_fails. Qed.
+
+Theorem C10_nonzero_only_if_zero_excluded_Z :
+  forall fmt b d ty,
+    choose_integer_Z fmt b d = Chosen ty -> nonzero_ty ty -> ~ admittedZ b 0.
+Proof. exact nonzero_only_if_zero_excluded_Z. Qed.
+
+(* what convert_integer itself guarantees about a default (add-time check inside
+   convert_integer only):
+   (1) below the normalised minimum / above the normalised maximum: rejected on every path;
+   (2) exact-format path: outside the format's limits (as doubles): rejected;
+   (3) off the exact path the format's limit is enforced only on a side the schema
+       leaves unbounded;
+   (4) an accepted default with chosen type u64 is not negative (covers the u64 fallback);
+   (5) a non-numeric default is rejected everywhere but on the exact path. *)
+Theorem C10_default_out_of_range_rejected_Z :
+  forall fmt b v,
+  ((exists m, znorm_min b = Some m /\ v < m) \/ (exists m, znorm_max b = Some m /\ m < v) ->
+     choose_integer_Z fmt b (Some (Some v)) = ErrInvalidValue) /\
+  (forall r, row_of fmt = Some r -> exact_path r b = true -> v < z_lo r \/ z_hi r < v ->
+     choose_integer_Z fmt b (Some (Some v)) = ErrInvalidValue) /\
+  (forall r, row_of fmt = Some r -> exact_path r b = false ->
+     (znorm_min b = None /\ v < z_lo r) \/ (znorm_max b = None /\ z_hi r < v) ->
+     choose_integer_Z fmt b (Some (Some v)) = ErrInvalidValue) /\
+  (choose_integer_Z fmt b (Some (Some v)) = Chosen "u64" -> 0 <= v) /\
+  (forall ty, choose_integer_Z fmt b (Some None) = Chosen ty ->
+     exists r, row_of fmt = Some r /\ exact_path r b = true).
+Proof. exact default_out_of_range_rejected_Z. Qed.
+
+Theorem C10_default_not_admitted_rejected_Z :
+  forall fmt b v,
+    small_exclusive b -> ~ admittedZ b v ->
+    choose_integer_Z fmt b (Some (Some v)) = ErrInvalidValue.
+Proof. exact default_not_admitted_rejected_Z. Qed.
+
+Theorem C10_never_narrower_than_format :
+  forall fmt, choose_integer_Z fmt no_bounds None = Chosen (base_ty fmt).
+Proof. exact never_narrower_than_format. Qed.
+
+(* ---- refinement: Flocq model = integer-level model on safe inputs ---- *)
+
+Theorem C10_refine :
+  forall fmt b d,
+    safe_bounds b -> safe_default d ->
+    choose_integer fmt b d = choose_integer_Z fmt (zb_of b) (zd_of d).
+Proof. exact choose_integer_refines. Qed.
+
+(* the domain of C10_refine is decidable by the test the correspondence run uses *)
+Theorem C10_safe_decidable :
+  forall b d, (safe_bounds b <-> safe_boundsb b = true) /\ (safe_default d <-> safe_defaultb d = true).
+Proof. exact (fun b d => conj (safe_bounds_b b) (safe_default_b d)). Qed.
+
+(* ---- the property on the Flocq model (admitted: exact real comparisons against the
+        stored doubles, multipleOf included; any default) ---- *)
+
+Theorem C10_int_fits :
+  forall fmt b d ty,
+    safe_bounds b -> choose_integer fmt b d = Chosen ty -> ~ Known_F6 fmt (zb_of b) ->
+    forall n, admitted b n -> in_base fmt n -> in_ty ty n.
+Proof. exact int_fits. Qed.
+
+Theorem C10_int_fits_refuted_F6 :
+  exists fmt b ty n,
+    safe_bounds b /\ known_F6b fmt (zb_of b) = true /\ choose_integer fmt b None = Chosen ty /\
+    admitted b n /\ in_base fmt n /\ ~ in_ty ty n.
+Proof. exact int_fits_refuted_F6. Qed.
+
+Theorem C10_nonzero_only_if_zero_excluded :
+  forall fmt b d ty,
+    safe_bounds b -> choose_integer fmt b d = Chosen ty -> nonzero_ty ty -> ~ admitted b 0.
+Proof. exact nonzero_only_if_zero_excluded. Qed.
+
+(* finding C10-F4: without safe_bounds the previous statement is false *)
+Theorem C10_nonzero_refuted_F4 :
+  exists b ty, choose_integer None b None = Chosen ty /\ nonzero_ty ty /\ admitted b 0 /\ ~ safe_bounds b.
+Proof. exact nonzero_refuted_F4. Qed.
+
+Theorem C10_default_out_of_range_rejected :
+  forall fmt b v z,
+    safe_bounds b -> exact v z ->
+    choose_integer fmt b (Some (Some v)) = choose_integer_Z fmt (zb_of b) (Some (Some z)).
+Proof. exact default_out_of_range_rejected. Qed.
+
+Theorem C10_default_not_admitted_rejected :
+  forall fmt b v z,
+    safe_bounds b -> exact v z -> small_exclusive (zb_of b) -> ~ admittedZ (zb_of b) z ->
+    choose_integer fmt b (Some (Some v)) = ErrInvalidValue.
+Proof. exact default_not_admitted_rejected. Qed.
+
+Theorem C10_never_narrower_than_format_f :
+  forall fmt, choose_integer fmt no_fbounds None = Chosen (base_ty fmt).
+Proof. exact never_narrower_than_format_f. Qed.
+
+(* ---- non-vacuity: the hypotheses are satisfiable and the outcomes occur ---- *)
+
+(* minimum 1, maximum 200, format uint8 *)
+Definition ex_b1 : bounds := mkb (Some 4607182418800017408) (Some 4641240890982006784) None None None.
+Example C10_ex_safe : safe_bounds ex_b1 /\ ~ Known_F6 (Some "uint8") (zb_of ex_b1).
+Proof.
+  split; [apply safe_bounds_b; vm_compute; reflexivity|].
+  intros H. apply Known_F6_dec in H. vm_compute in H. discriminate H.
+Qed.
+Example C10_ex_nonzero : choose_integer (Some "uint8") ex_b1 None = Chosen "::std::num::NonZeroU8".
+Proof. vm_compute. reflexivity. Qed.
+Example C10_ex_admitted : admittedZ (zb_of ex_b1) 200 /\ in_base (Some "uint8") 200 /\ ~ admittedZ (zb_of ex_b1) 0.
+Proof.
+  split; [|split].
+  - unfold admittedZ, ole, oge, olt, ogt. repeat split; intros m Hm; vm_compute in Hm; inversion Hm; subst; intro; discriminate.
+  - unfold in_base, in_ty. vm_compute. split; intro; discriminate.
+  - intros (H & _). specialize (H 1 eq_refl). vm_compute in H. apply H. reflexivity.
+Qed.
+(* a lone maximum of 255 no longer selects u8 (typify e147660) *)
+Example C10_ex_lone_max :
+  choose_integer_Z None {| zb_min := None; zb_max := Some 255; zb_emin := None; zb_emax := None; zb_mult := false |} None
+  = Chosen "i64".
+Proof. vm_compute. reflexivity. Qed.
+(* format uint8, minimum 10, default 5 is rejected (typify e726c03) *)
+Example C10_ex_default :
+  choose_integer_Z (Some "uint8") {| zb_min := Some 10; zb_max := None; zb_emin := None; zb_emax := None; zb_mult := false |}
+    (Some (Some 5)) = ErrInvalidValue.
+Proof. vm_compute. reflexivity. Qed.
+(* a negative default on the u64 fallback is rejected (typify 36ec009) *)
+Example C10_ex_u64_fallback :
+  choose_integer_Z (Some "uint64") {| zb_min := None; zb_max := None; zb_emin := None; zb_emax := None; zb_mult := true |}
+    (Some (Some (-1))) = ErrInvalidValue
+  /\ choose_integer_Z (Some "uint64") {| zb_min := None; zb_max := Some 5; zb_emin := None; zb_emax := None; zb_mult := true |}
+    (Some (Some 3)) = Chosen "u64".
+Proof. split; vm_compute; reflexivity. Qed.
